@@ -724,6 +724,21 @@ def run(rep):
     rep.add_bounded('Quantizer(model, shipped recipe) -> calibrate (when needed) -> quantize -> LiteRT allocate + invoke (real public API; any exception is a failure)',
                     f'{len(rids)} shipped recipes {rids} x {len(specs)} generated models; {M.SCOPE}; calibration with {1 + seed % 2} seeded random sample(s); seed {seed}', nruns, len(counted),
                     note=f'failures by census site: {by_site}' + (f'; failures at {sorted(kf_sites)} belong to listed known findings and are excluded' if kf_sites else ''))
+    # one Quantizer used for two shipped recipes in a row (a shipped recipe "loaded unchanged" into an object that has quantized before): the second run must not be rejected where a fresh object accepts
+    frids = [r for r in rids if r.startswith('file:')]; seq_runs = 0; seq_fail = []
+    for sp in M.SEQ_SPECS:
+        for ra in frids:
+            for rb in frids:
+                if ra == rb: continue
+                second, fresh = M.run_sequence(ra, rb, sp, n_samples=1, seed=seed); seq_runs += 1
+                if fresh['status'] == 'ok' and second['status'] != 'ok': seq_fail.append((ra, rb, sp, second))
+    rep.add_bounded('ONE Quantizer, two shipped recipes in a row (load A, calibrate/quantize, load B unchanged, calibrate/quantize): the second run raises nothing wherever a fresh Quantizer with B raises nothing',
+                    f'{len(frids)} x {len(frids) - 1} ordered pairs of shipped recipe files x {len(M.SEQ_SPECS)} models {M.SEQ_SPECS}', seq_runs, len(seq_fail), note='; '.join(f'{a} then {b}: {r.get("exc")}: {r.get("msg")}' for a, b, _, r in seq_fail[:3]))
+    if seq_fail:
+        ra, rb, sp, r = seq_fail[0]
+        rep.add(core.Ob(f'C08/bounded.sequence/{r.get("exc")}@second-recipe', None, 'bounded-native', core.REFUTED, 0.0, detail=f'{ra} then {rb} on {json.dumps(sp)}: {r.get("msg")}',
+                        clause='a shipped recipe loaded unchanged into a Quantizer that has already quantized with another shipped recipe quantizes every model a fresh Quantizer quantizes',
+                        replay=dict(confirmed=True, inputs=dict(level='sequence', first=ra, recipe=rb, spec=sp, n_samples=1, seed=seed), observed=r)))
     # the runtime step: belongs to C01 (runtime-loadable result), NOT to the statement of C08 (quantize() returns and raises nothing): reported, not a violation here
     rep.add_bounded('LiteRT allocate_tensors + invoke on the model returned by quantize() (clause of C01, exercised here as a by-product; failures are reported as NOTE, they are not violations of C08)',
                     f'every successful pipeline run of the stand-in above plus {len(M.DEGENERATE)} degenerate-range models {M.DEGENERATE} x shipped recipes with fixed calibration data (seed 7)', (nruns - len(fails)) + druns, len(litert),
@@ -910,6 +925,10 @@ def replay(payload):
         fails, n = M.run_many([inp['recipe']], [M.norm(inp['spec'])], inp.get('n_samples', 1), inp.get('seed', 0))      # in a child process: LiteRT may abort
         print(fails or 'ok')
         return 1 if fails else 0
+    if inp.get('level') == 'sequence':
+        from replay import c08_models as M
+        second, fresh = M.run_sequence(inp['first'], inp['recipe'], M.norm(inp['spec']), inp.get('n_samples', 1), inp.get('seed', 0)); print('second run:', second, 'fresh Quantizer:', fresh)
+        return 1 if fresh['status'] == 'ok' and second['status'] != 'ok' else 0
     if inp.get('level') == 'function':
         from replay import c08_native as NV
         F = NV.facts(sample=True, want_lines=False)
